@@ -163,9 +163,6 @@ MUTANTS = [
     {"prop": "C08", "name": "case-folded-readings-not-after-exact-case", "file": PR,
      "old": "            itertools.chain(\n                self._yield_unit_triplets(unit_name, True),\n                self._yield_unit_triplets(unit_name, False),\n            )\n",
      "new": "            self._yield_unit_triplets(unit_name, False)\n"},
-    {"prop": "C08", "name": "registered-symbol-by-reparsing", "file": PR,
-     "old": "            symbol = prefix_def.symbol + self._units[unit_name].symbol\n",
-     "new": "            symbol = self.get_symbol(name, case_sensitive)\n"},
     # ------------------------------------------------------------------ C10
     {"prop": "C10", "name": "warm-cache-not-installed", "file": PR,
      "old": "            else:\n                self._cache = cache\n            return\n", "new": "            return\n"},
